@@ -2,6 +2,7 @@ package sim
 
 import (
 	"fmt"
+	"sort"
 
 	_state "github.com/mosaicnetworks/babble/src/node/state"
 )
@@ -63,6 +64,10 @@ func init() {
 				cfg.PCrash = 0.008
 			}
 			withMembership(cfg, r, 0.3)
+			if r.Bool(0.3) {
+				// applications that submit follow-up transactions from inside the commit callback
+				cfg.PCommitSubmit = 0.3
+			}
 			return cfg
 		},
 		run: func(c *Cluster, spec *runSpec) {
@@ -88,6 +93,20 @@ func init() {
 				cfg.Byz = 1
 				cfg.PByz = 0.08
 				cfg.PSilence = 0
+			} else if r.Bool(0.5) {
+				// a small network that grows a lot: the signature thresholds of the
+				// later rounds differ from those of the first (1 -> 3, 2 -> 6, 3 -> 6 ...)
+				cfg.N0 = []int{1, 1, 2, 3}[r.Intn(4)]
+				cfg.Stores = make([]string, cfg.N0)
+				for i := range cfg.Stores {
+					cfg.Stores[i] = "inmem"
+				}
+				cfg.PJoin = 0.04
+				cfg.PLeave = 0
+				cfg.MaxJoins = r.Range(2, 5)
+				cfg.MaxLeaves = 0
+				cfg.PSilence = 0
+				cfg.Steps += 150
 			}
 			return cfg
 		},
@@ -238,6 +257,27 @@ func (c *Cluster) checkC06() {
 				c.violate("C06", "everything-commits", "payload-event-uncommitted", "node %d is idle but still holds undetermined event %s carrying payload", n.idx, short(hash))
 				return
 			}
+		}
+	}
+	// every transaction accepted by a node that kept running is committed
+	liveAccepted := map[string]int{}
+	for _, n := range live {
+		if n.stalled {
+			continue
+		}
+		for _, tx := range n.acceptedTxs {
+			liveAccepted[string(tx)]++
+		}
+	}
+	keys := make([]string, 0, len(liveAccepted))
+	for k := range liveAccepted {
+		keys = append(keys, k)
+	}
+	sort.Strings(keys)
+	for _, k := range keys {
+		if com := c.ledger.committed[k]; com < liveAccepted[k] {
+			c.violate("C06", "everything-commits", "accepted-transaction-never-committed", "all live nodes are idle after the fair suffix, but transaction %x, accepted %d time(s) by nodes that kept running, is committed %d time(s)", clip([]byte(k), 24), liveAccepted[k], com)
+			return
 		}
 	}
 	_ = _state.Babbling
@@ -424,9 +464,7 @@ func init() {
 			},
 			run: func(c *Cluster, spec *runSpec) {
 				if c.cfg.Synthetic {
-					c.synthetic = true
-					c.buildSynthDag(NewRNG(Mix(c.seed, 0x73796e)))
-					c.dagReplay(c.cfg.Variants)
+					c.synthRun(spec)
 					return
 				}
 				c.genesis()
@@ -476,9 +514,7 @@ func init() {
 			return cfg
 		},
 		run: func(c *Cluster, spec *runSpec) {
-			c.synthetic = true
-			c.buildSynthDag(NewRNG(Mix(c.seed, 0x73796e)))
-			c.dagReplay(c.cfg.Variants)
+			c.synthRun(spec)
 		},
 	}
 }
